@@ -25,6 +25,7 @@ import (
 	"github.com/olive-io/bpmn/v2/pkg/errors"
 	"github.com/olive-io/bpmn/v2/pkg/id"
 	"github.com/olive-io/bpmn/v2/pkg/tracing"
+	"github.com/olive-io/bpmn/v2/pkg/verifhook"
 )
 
 type InclusiveNoEffectiveSequenceFlows struct {
@@ -185,6 +186,7 @@ func (gw *inclusiveGateway) run(ctx context.Context, sender tracing.ISenderHandl
 }
 
 func (gw *inclusiveGateway) trySync() {
+	verifhook.Point("inc.trysync")
 	if !gw.synchronized && len(gw.arrived) >= len(gw.awaiting) {
 		// Have we got everybody?
 		matches := 0
